@@ -125,6 +125,13 @@ func (g *StoreGen) fresh() *mocrelay.Event {
 		default:
 			e.Tags = append(e.Tags, mocrelay.Tag{"d", d})
 		}
+		// several d tags: the first one addresses the event
+		if len(e.Tags) > 0 && g.R.IntN(6) == 0 {
+			e.Tags = append(e.Tags, mocrelay.Tag{"d", Pick(g.R, sgDValues) + "2"})
+			if g.R.IntN(2) == 0 {
+				e.Tags = append(e.Tags, mocrelay.Tag{"d", Pick(g.R, sgDValues)})
+			}
+		}
 	default:
 		e.Kind = Pick(g.R, sgEphemeralKinds)
 	}
@@ -193,6 +200,10 @@ func (g *StoreGen) deletion() *mocrelay.Event {
 			tag = append(tag, "", "mention")
 		}
 		k.Tags = append(k.Tags, tag)
+		if g.R.IntN(5) == 0 {
+			// the same reference twice (once more with a hint)
+			k.Tags = append(k.Tags, mocrelay.Tag{tag[0], tag[1], "wss://again.example"})
+		}
 	}
 	if g.R.IntN(3) == 0 {
 		g.extraTags(k)
